@@ -34,7 +34,10 @@ C_BOUND = 32.0
 U32 = 2.0 ** -24
 
 # epsilon is never below the dtype's resolution of the scale (the property's domain)
-EPS_REL = {"f32": [1e-2, 1e-4, 1e-6], "f64": [1e-2, 1e-6, 1e-12]}
+EPS_REL = {"f32": [1e2, 1.0, 1e-2, 1e-4, 1e-6], "f64": [1e2, 1.0, 1e-2, 1e-6, 1e-12]}
+# below the dtype's resolution of the scale (e.g. the default epsilon 1e-12 with float32 factors): only the direct
+# (eigendecomposition) solvers are exercised there, against the closed form of the construction with the true kappa
+EPS_BELOW = {"f32": [1e-12, 1e-18], "f64": [1e-24]}
 SOLVERS = ["eigen", "eigen_stab", "newton6", "newton10", "ho2", "ho3"]
 ROOTS = [Fraction(1), Fraction(2), Fraction(4), Fraction(8), Fraction(3, 2), Fraction(4, 3), Fraction(8, 3)]
 
@@ -60,7 +63,7 @@ def spectra_for(dtype):
     ks = [1, 3, 6] if dtype == "f32" else [1, 6, 12]
     out = [("equal", 1.0)]
     out += [("geometric", 10.0 ** k) for k in ks]
-    out += [("one_tiny", 10.0 ** ks[1]), ("clustered", 10.0 ** ks[0]), ("rankdef", 1.0), ("linear", 10.0 ** ks[0])]
+    out += [("one_tiny", 10.0 ** ks[1]), ("clustered", 10.0 ** ks[0]), ("rankdef", 1.0), ("linear", 10.0 ** ks[0]), ("zero", 1.0)]
     return out
 
 
@@ -72,7 +75,12 @@ def cases(tier):
             for (sp, cond), b, scale, eps_rel in itertools.product(spectra_for(dtype), mx.BASES, [1e-6, 1.0, 1e6], EPS_REL[dtype]):
                 if n == 1 and b != "identity":
                     continue
+                if sp == "zero" and b != "identity":
+                    continue
                 yield dict(n=n, dtype=dtype, sp=sp, cond=cond, basis=b, scale=scale, eps_rel=eps_rel)
+            for (sp, cond), b, scale, eps_rel in itertools.product([("rankdef", 1.0), ("one_tiny", 1e3), ("geometric", 1e3)], mx.BASES, [1.0, 1e3, 1e6], EPS_BELOW[dtype]):
+                if n > 1:
+                    yield dict(n=n, dtype=dtype, sp=sp, cond=cond, basis=b, scale=scale, eps_rel=eps_rel, below=True)
         for n in nbig:
             for (sp, cond) in spectra_for(dtype):
                 for b, scale, eps_rel in [("givens", 1.0, 1e-2), ("dct", 1e6, 1e-6), ("householder", 1e-6, 1e-2), ("identity", 1.0, EPS_REL[dtype][-1]), ("perm", 1.0, 1e-6)]:
@@ -103,9 +111,9 @@ def make_input(torch, c):
     return A, Q, lam
 
 
-def oracle(A, Q, lam, eps, r, dtype):
+def oracle(A, Q, lam, eps, r, dtype, closed=False):
     e = -1.0 / float(r)
-    if dtype == "f32":
+    if dtype == "f32" and not closed:
         w, V = np.linalg.eigh(A.double().numpy())
         w = w - min(w.min(), 0.0) + eps
         return (V * w ** e) @ V.T, w
@@ -121,13 +129,16 @@ def check_input(torch, c, stats):
     n, dtype = c["n"], c["dtype"]
     u = common.UNIT[dtype]
     eps = c["eps_rel"] * c["scale"]
+    below = bool(c.get("below"))
     for r in ROOTS:
-        Xs, w = oracle(A, Q, lam, eps, r, dtype)
+        Xs, w = oracle(A, Q, lam, eps, r, dtype, closed=below)
         kappa = float(w.max() / w.min())
         nx = np.linalg.norm(Xs)
         expo_term = (1.0 / float(r)) * U32 * float(np.max(np.abs(np.log(w))))
         for s in SOLVERS:
             if s.startswith("newton") and r.denominator != 1:
+                continue
+            if below and s.startswith("newton"):
                 continue
             case = dict(c, root=[r.numerator, r.denominator], solver=s)
             cfgobj = solver_cfg(s)
@@ -154,6 +165,17 @@ def check_input(torch, c, stats):
                 out.append((case, f"raised {type(e).__name__}: {str(e)[:100]}"))
                 continue
             stats["calls"] = stats.get("calls", 0) + 1
+            if s.startswith("ho") and n > 1 and r.denominator == 1:
+                # the guard, recomputed exactly as specified in the working precision: whenever the routine returns,
+                # |A_eps X^p - I|_max <= 0.1 (a NaN residual is not <= 0.1)
+                Ar_t = A + eps * torch.eye(n, dtype=A.dtype)
+                rw = torch.linalg.vector_norm(Ar_t @ torch.linalg.matrix_power(X, r.numerator) - torch.eye(n, dtype=A.dtype), torch.inf)
+                stats["ho_guard_checked"] = stats.get("ho_guard_checked", 0) + 1
+                if not bool(rw <= 0.1):
+                    out.append((case, f"higher-order solver returned although its residual |A_eps X^p - I| = {float(rw):.3e} exceeds the guard 0.1 (flag {flag.name if flag else None})"))
+                    continue
+            if below and s.startswith("ho"):
+                continue  # below the resolution only the guard (above) is claimed for the iterative solver
             Xn = X.double().numpy()
             iterative = s.startswith("newton") or s.startswith("ho")
             well = kappa * u <= 1e-2  # region in which the iterative solvers are held to their post-conditions
@@ -178,7 +200,6 @@ def check_input(torch, c, stats):
                         if float(np.max(np.abs(M.double().numpy() - np.eye(n)))) > cfgobj.tolerance:
                             out.append((case, "Newton reports CONVERGED but |M - I|_inf exceeds the tolerance"))
                 else:
-                    # guard: residual before powering must be <= 0.1 whenever the routine returns
                     q = r.denominator
                     if q > 1:
                         wv, V = np.linalg.eigh((Xn + Xn.T) / 2)
